@@ -14,7 +14,11 @@ def run(ctx):
         "paths are judged lexically (no symlinks are planted inside the sandbox); platform = Linux (backslash is an ordinary character)",
         "layout without the torrent-id level: the torrent's own directory is the data directory itself, so damage to OTHER torrents' "
         "files inside the shared data directory (RemoveTorrent of a torrent named '.') is not counted",
-        "tar entry names containing NUL cannot be encoded by archive/tar and are skipped (counted in driver stats)"]
+        "tar entry names containing NUL cannot be encoded by archive/tar and are skipped (counted in driver stats)",
+        "alternative sources of a validated value (families U, V): name.utf-8 / path.utf-8 independent of the plain keys (absent, "
+        "present-but-empty, harmless, dangerous), duplicate dictionary keys (alternative first / last), 'length' next to 'files', "
+        "BitComet padding names with / without attr; run with NewInfo flags (utf8,pad) = (on,on) New+resume v3, (on,off) v2, (off,off) v1; "
+        "families A-C alternate (on,on) / (off,off) by concretisation; the session path always uses metainfo.New"]
     mc_err = []
 
     def mc():
@@ -24,9 +28,16 @@ def run(ctx):
             if ok or "Invariant NoHole is violated" not in out:
                 raise vlib.MachineryError("vacuity guard: the model of the filter as found has no hole (NoHole not violated)")
             ctx.mc_runs[-1]["expected_violation"] = "NoHole"
+            # alternative sources (name.utf-8 / path.utf-8): the validated value must be the value that is used
+            ctx.tlc_mc("MC_PathsAlt", "MC_PathsAlt.cfg", timeout=1800, workers=4)
+            ok, out = ctx.tlc_mc("MC_PathsAlt", "MC_PathsAlt_hole.cfg", timeout=1800, workers=2, expect_ok=False)
+            if ok or "Invariant NoOrderHole is violated" not in out:
+                raise vlib.MachineryError("vacuity guard: validating the plain keys while using the utf-8 keys shows no hole in the model")
+            ctx.mc_runs[-1]["expected_violation"] = "NoOrderHole"
             if not ctx.quick():
                 ctx.tlc_mc("MC_Paths", "MC_Paths_full.cfg", timeout=3000, workers=4)
                 ctx.tlc_mc("MC_Paths", "MC_Paths_big.cfg", timeout=3600, workers=4)
+                ctx.tlc_mc("MC_PathsAlt", "MC_PathsAlt_big.cfg", timeout=3600, workers=4)
         except Exception as ex:
             mc_err.append(ex)
 
@@ -113,11 +124,18 @@ def judge(ctx, lines, stats):
         sym = cur.get("sym") or {}
         name = "".join(sym.get("name", [])) if sym else ""
         if cur["run"] == "tar":
-            cls = "tar entry=" + "/".join("".join(c) or "ε" for c in cur.get("entry", []))
+            # class of the entry name, not the name itself (one verdict per class: a broken prefix check hits hundreds of names)
+            kinds = sorted({"empty" if not c else "dot" if c == ["D"] else "dotdot" if c == ["D", "D"] else "other" for c in cur.get("entry", [])})
+            cls = "tar entry-kinds=" + "+".join(kinds)
         else:
             nm = name.strip("P")
             ncls = "dotdot" if nm == "DD" else "dot" if nm == "D" else "has-slash" if "S" in name else "other"
-            cls = "name=%s" % ncls
+            src = "plain"
+            if sym.get("fam") == "U":
+                src = "utf8-keys"
+            elif sym.get("fam") == "V":
+                src = "dup-" + sym["dup"]["kind"] if sym.get("dup", {}).get("kind", "none") != "none" else sym.get("extra", "none")
+            cls = "name=%s src=%s" % (ncls, src)
         sig = "tag=%s run=%s withid=%d %s" % (tag, cur["run"], cur["withid"], cls)
         seen.setdefault(sig, []).append((cur, d))
     for sig, xs in sorted(seen.items()):
